@@ -76,7 +76,9 @@ class Engine(ExprMixin, CallMixin, StmtMixin):
         uses = kw.pop("uses", ())
         defaults = kw.pop("defaults", None)
         hints = kw.pop("cover_hints", ())
+        monitors = kw.pop("item_monitors", None)
         c = Contract(key, **kw)
+        c.item_monitors = monitors or {}
         c.uses = tuple(uses)
         c.cover_hints = list(hints)
         c.defaults = defaults
@@ -340,20 +342,46 @@ class Engine(ExprMixin, CallMixin, StmtMixin):
                      "lines": [0, 0], "sha256": "", "paths": len(obs), "stmts": 0, "gen_s": 0.0, "calls": []}
 
     # ------------------------------------------------------------------ solving
+    @staticmethod
+    def _alpha_eq(f, g):
+        """quantified formulas equal up to names of bound variables (z3 bodies are de Bruijn indexed)"""
+        try:
+            return (f.is_forall() == g.is_forall() and f.num_vars() == g.num_vars()
+                    and all(f.var_sort(i).eq(g.var_sort(i)) for i in range(f.num_vars()))
+                    and f.body().eq(g.body()))
+        except Exception:
+            return False
+
     def solve(self, ob, c, timeout_ms=20000):
         s = z3.Solver()
         s.set("timeout", timeout_ms)
+        t0 = time.time()
+        gs = str(ob.goal)
+        if any(f.eq(ob.goal) or (z3.is_quantifier(f) and z3.is_quantifier(ob.goal) and self._alpha_eq(f, ob.goal))
+               for f in ob.pc):
+            # the goal is literally one of the hypotheses (up to renaming of bound variables)
+            ob.result = {"status": "unsat", "time": 0.0, "backend": "syntactic"}
+            return ob.result
         for a in self.axioms_for(c):
             s.add(a)
         s.add(*ob.pc)
         s.add(z3.Not(ob.goal))
-        t0 = time.time()
         r = s.check()
         dt = time.time() - t0
         res = {"status": str(r), "time": round(dt, 4), "backend": "z3-" + z3.get_version_string()}
         if r == z3.sat:
             try:
-                res["model"] = s.model()
+                m = s.model()
+                res["model"] = m
+                # z3's model-based quantifier instantiation can return bogus models on quantified array
+                # formulas: a `sat` whose model falsifies a ground hypothesis (or satisfies the goal) is
+                # downgraded to `unknown` (never reported as a violation)
+                for f in list(ob.pc) + [z3.Not(ob.goal)]:
+                    if z3.is_quantifier(f):
+                        continue
+                    if z3.is_false(m.eval(f, model_completion=True)):
+                        res["status"], res["reason"], res["model"] = "unknown", "model does not validate", None
+                        break
             except z3.Z3Exception:
                 res["model"] = None
         elif r == z3.unknown:
